@@ -148,6 +148,7 @@ func c09CheckMethod(c *Ctx, rule, key string, f *ssa.Function, kind string, num 
 	paths, _ := exec(c, f, nil, 1)
 	okAny := false
 	found := ""
+	skipBad := ""
 	for _, p := range paths {
 		// sequence of protowire appends and writes
 		var seq []*Term
@@ -159,7 +160,21 @@ func c09CheckMethod(c *Ctx, rule, key string, f *ssa.Function, kind string, num 
 			}
 		}
 		if len(seq) == 0 {
-			continue // e.g. proto3 zero-value elision branch
+			// proto3 zero-value elision is the only reason to write nothing: every condition of the path must be
+			// the test of the value against zero, taken in the direction "v is zero" (a decoder then yields 0, i.e. v).
+			zeroOnly := len(p.Conds) > 0
+			for _, pc := range p.Conds {
+				t := pc.Term
+				isZ := (t.isBin("!=") || t.isBin("==")) && (t.Args[0].isConst("0") && stripConv(t.Args[1]).isParam(1) || t.Args[1].isConst("0") && stripConv(t.Args[0]).isParam(1))
+				if !isZ || pc.Taken != t.isBin("==") {
+					zeroOnly = false
+					skipBad = fmt.Sprintf("writes nothing under %s=%v, which is not the proto3 zero-value elision `v == 0`", t.Key(), pc.Taken)
+				}
+			}
+			if !zeroOnly && skipBad == "" {
+				skipBad = "a path writes nothing unconditionally"
+			}
+			continue
 		}
 		var apps []*Term
 		for _, t := range seq {
@@ -218,6 +233,7 @@ func c09CheckMethod(c *Ctx, rule, key string, f *ssa.Function, kind string, num 
 		}
 	}
 	c.R.check(okAny, rule, key, shortFn(f), c.fpos(f), fmt.Sprintf("tag %d = (%d<<3)|%d and the %s value encoding", want, num, wireTypeOf(kind), kind), firstNonEmpty(found, "ok"))
+	c.R.check(skipBad == "", rule, key+"/always-written", shortFn(f), c.fpos(f), "the field is written for every value except (optionally) the proto3 zero value, which decodes to the same value", firstNonEmpty(skipBad, "ok"))
 }
 
 // settersCalled: builder setter names called (transitively through closures) by f with their argument terms.
@@ -580,6 +596,29 @@ func c09Rebuild(c *Ctx, a *sketchAnchors) {
 				}
 			}
 		}
+		// both loops run on every call: the only branches of the function are the two range loops' own
+		// continuation tests (a guard such as `len(pb.ContiguousBinCounts) > 0` choosing one form drops the other)
+		extra := ""
+		for _, b := range g.Blocks {
+			if len(b.Instrs) == 0 {
+				continue
+			}
+			iff, ok := b.Instrs[len(b.Instrs)-1].(*ssa.If)
+			if !ok {
+				continue
+			}
+			ct := tc.Of(iff.Cond)
+			isLoop := false
+			for _, l := range naturalLoops(g) {
+				if l.header == b {
+					isLoop = true
+				}
+			}
+			if !isLoop {
+				extra = fmt.Sprintf("branch on %s at %s is not a loop test", ct.Key(), c.P.Fset.Position(iff.Cond.Pos()))
+			}
+		}
+		c.R.check(extra == "", rule, shortFn(g)+"/forms-not-exclusive", shortFn(g), c.fpos(g), "no branch other than the two loops' continuation tests: both bin forms are always added", firstNonEmpty(extra, "ok"))
 		c.R.check(sparseOK && contigOK, rule, shortFn(g)+"/both-forms-add-up", shortFn(g), c.fpos(g), "adds BinCounts[k] at int(k) and ContiguousBinCounts[i] at i + int(ContiguousBinIndexOffset)", fmt.Sprintf("sparse=%v contiguous=%v", sparseOK, contigOK))
 	}
 	c.R.floor(rule, "MergeWithProto copies", len(fns), 2)
